@@ -323,6 +323,23 @@ theorem C18_mode_pinned_witness :
       remapEntries {} (some (Str.ofString "create")) files (Str.ofString "Linux") [d1, d2] = some [d2] := by
   decide
 
+/-- **D59, pinned tree (negation witness):** `remapEntries()` without a mapping argument merged the rules of
+`manifest.remap` into its shared default argument.  After a first call that read `afw:1.0 5.0`, a second call on
+another manifest, whose `manifest.remap` names nothing, still replaced `afw 1.0` by `afw 5.0`; the repaired call
+(fresh default per call) leaves the manifest alone. -/
+theorem C18_default_mapping_pinned_witness :
+    let d1 : Dep := { product := Str.ofString "afw", version := Str.ofString "1.0", flavor := none, tablefile := none,
+                      instDir := none, distId := none }
+    let d2 : Dep := { product := Str.ofString "python", version := Str.ofString "2.6", flavor := none, tablefile := none,
+                      instDir := none, distId := none }
+    let fl := Str.ofString "Linux"
+    let first := remapEntriesDefaultPinned {} none [[Str.ofString "afw:1.0   5.0"]] fl [d1]
+    (first.bind fun r => (remapEntriesDefaultPinned r.2 none [[Str.ofString "# nothing to remap"]] fl [d1, d2]).map
+        fun x => x.1.map fun d => (d.product, d.version)) =
+        some [(Str.ofString "afw", Str.ofString "5.0"), (Str.ofString "python", Str.ofString "2.6")] ∧
+      remapEntries {} none [[Str.ofString "# nothing to remap"]] fl [d1, d2] = some [d1, d2] := by
+  decide
+
 /-! ## the `dummy` branch of `remapEntries` -/
 
 /-- an entry that makes `remapEntries` look for (and, if it is missing, declare) the product `pn` in version `dummy`:
